@@ -254,12 +254,24 @@ theorem concurrent_false_lc {s : Store H} {r : Row H} (hc : concurrent s r = fal
     have := hfresh oh (lcAtHeight_some e).1
     simp [concurrent, hl, e, this] at hc
 
+/-- a header on the longest chain's side that is not compared with the tip adds work -/
+theorem concurrent_false_work {s : Store H} {r : Row H} (hc : concurrent s r = false) (hl : r.st = .lc) :
+    r.work ≠ 0 := by
+  intro hz
+  simp [concurrent, hl, hz] at hc
+
+/-- a zero-work child of a longest-chain row is always compared with the tip -/
+theorem concurrent_zero_work {s : Store H} {r : Row H} (hl : r.st = .lc) (hz : r.work = 0) :
+    concurrent s r = true := by
+  simp [concurrent, hl, hz]
+
 /-! ### the step -/
 
-/-- `add` preserves the invariant, unless the submission is a zero-work extension of the tip -/
+/-- `add` preserves the invariant — for EVERY submission. A zero-work child of a longest-chain row is compared
+    with the tip (`concurrent_zero_work`); its cumulative work is its parent's, which the tip dominates, so it falls
+    into the "a stale row is appended" branch below. -/
 theorem Inv.add {cfg : Cfg H} {s : Store H} (h : Inv cfg s) (x : Src H) {g : Row H} (hg : g ∈ s)
-    (hg0 : g.id = 0) (hz : ∀ y, cfg.hashOf y ≠ g.prev)
-    (hx : work x.bits = 0 → ∀ t, getTip s = some t → t.hash ≠ x.prev) : Inv cfg (Chain.add cfg s x).1 := by
+    (hg0 : g.id = 0) (hz : ∀ y, cfg.hashOf y ≠ g.prev) : Inv cfg (Chain.add cfg s x).1 := by
   refine ⟨h.1.add_wf x hg hg0 hz, ?_⟩
   obtain ⟨hw, t, ht, hl⟩ := h
   have htip := hl.getTip ht
@@ -287,7 +299,7 @@ theorem Inv.add {cfg : Cfg H} {s : Store H} (h : Inv cfg s) (x : Src H) {g : Row
           obtain ⟨a, ha, hal, hah⟩ := hw.lc_contiguous hl.par ht hl.lc (k := p.height + 1) (by omega)
           exact hnone a ha hal (by rw [hah, hm])
         subst hpt
-        have hwork : work x.bits ≠ 0 := fun k => hx k p htip hpe
+        have hwork : work x.bits ≠ 0 := concurrent_false_work hc hst
         refine ⟨_, List.mem_append_right _ (List.mem_singleton.2 rfl), ?_⟩
         have := LcAt.append_lc hw hl id (fun a _ => rfl) (fun a _ => Iff.rfl) (mkRow cfg s x) hst fresh
           hp hpe hm (by omega) (fun a ha hal => hl.top a ha hal) hl.uniq hl.par hpl
@@ -307,23 +319,35 @@ theorem Inv.add {cfg : Cfg H} {s : Store H} (h : Inv cfg s) (x : Src H) {g : Row
       exact ⟨_, List.mem_append_right _ (List.mem_singleton.2 rfl),
         LcAt.switch hw hl hp hpc hpe hm fresh hcum⟩
 
-/-- the invariant along a history of positive-work headers -/
+/-- a header that adds no work never gets onto the longest chain: it is appended STALE (connected parent) or ORPHAN,
+    and no old row is relabelled -/
+theorem Inv.add_zero_work {cfg : Cfg H} {s : Store H} (h : Inv cfg s) (x : Src H) (hwk : work x.bits = 0)
+    (hd : ¬ (byHash s (cfg.hashOf x)).isSome = true) (hf : cfg.hashOf x ∉ cfg.forbidden) :
+    ∃ r, Chain.add cfg s x = (s ++ [r], .stored r) ∧ r.hash = cfg.hashOf x ∧ r.work = 0 ∧ r.st ≠ .lc := by
+  obtain ⟨hw, t, ht, hl⟩ := h
+  have htip := hl.getTip ht
+  rcases add_cases cfg s x with ⟨k, _⟩ | ⟨_, k, _⟩ | ⟨_, _, k⟩
+  · exact absurd k hd
+  · exact absurd k hf
+  · rcases k with ⟨hc, e⟩ | ⟨_, hn, _⟩ | ⟨hc, tip, htip', hcum, e⟩ | ⟨hc, tip, htip', hcum, e⟩
+    · refine ⟨_, e, rfl, hwk, fun hst => ?_⟩
+      exact concurrent_false_work hc hst hwk
+    · rw [htip] at hn; cases hn
+    · exact ⟨_, e, rfl, hwk, fun k => by cases k⟩
+    · rw [htip] at htip'; cases htip'
+      obtain ⟨p, hp, _, _, hpc, _, hmc, _⟩ := mkRow_par (concurrent_connected hc)
+      have := (hl.best p hp hpc).1
+      omega
+
+/-- the invariant along any history -/
 theorem Inv.run {cfg : Cfg H} {g : Row H} (hz : ∀ y, cfg.hashOf y ≠ g.prev) :
-    ∀ (hist : List (Src H)) {s : Store H}, Inv cfg s → g ∈ s → g.id = 0 →
-      (∀ x ∈ hist, 0 < work x.bits) → Inv cfg (Chain.run cfg s hist) := by
+    ∀ (hist : List (Src H)) {s : Store H}, Inv cfg s → g ∈ s → g.id = 0 → Inv cfg (Chain.run cfg s hist) := by
   intro hist
   induction hist with
-  | nil => intro s h _ _ _; exact h
+  | nil => intro s h _ _; exact h
   | cons x hist ih =>
-    intro s h hg hg0 hpos
+    intro s h hg hg0
     show Inv cfg (Chain.run cfg (Chain.add cfg s x).1 hist)
-    apply ih
-    · apply h.add x hg hg0 hz
-      intro hw
-      have := hpos x List.mem_cons_self
-      omega
-    · exact h.1.add_keeps x hg (Or.inl hg0)
-    · exact hg0
-    · intro y hy; exact hpos y (List.mem_cons_of_mem _ hy)
+    exact ih (h.add x hg hg0 hz) (h.1.add_keeps x hg (Or.inl hg0)) hg0
 
 end BHS.Chain
